@@ -232,7 +232,13 @@ fn targs_layout<'tcx>(tcx: TyCtxt<'tcx>, n: &Node<'tcx>) -> String {
     let Some(name) = tcx.opt_item_name(n.did) else { return "null".into() };
     let name = name.to_string();
     let pats = std::env::var("FV_LAYOUT_FNS").unwrap_or_else(|_| "read_ref_at,read_array,cast_slice,from_bytes,alloc_slice,try_cast_slice_mut,try_cast_slice,try_from_bytes".into());
-    if !pats.split(',').any(|p| p == name) {
+    // ... and of every generic function of the scratch-memory module (whatever it is called: the carver may be renamed)
+    let mods = std::env::var("FV_LAYOUT_MODS").unwrap_or_else(|_| "outline::glyf::memory::".into());
+    let in_mod = {
+        let p = tcx.def_path_str(n.did);
+        mods.split(',').any(|m| !m.is_empty() && p.contains(m))
+    };
+    if !pats.split(',').any(|p| p == name) && !in_mod {
         return "null".into();
     }
     let mut out: Vec<String> = Vec::new();
